@@ -167,7 +167,7 @@ CLAIMS.update({
         note="Trusted: Lean kernel, axioms, harness+driver. The unicode-segmentation crate's cluster boundaries are an input; AsciiSeg is a hypothesis exercised exhaustively for short ASCII strings."),
 })
 
-NU_NOTE = "Trusted: Lean kernel, axioms propext/Classical.choice/Quot.sound, harness (gates on the cfg-gated yield points) + driver. Modelled, not verified: the control flow of tick/tick_inner/restart/Worker::run (tied by replaying seeded histories on a real Nucleo, every observable compared); a background run is one model transition parameterised by its observations; parking_lot's lock, Arc counts and rayon are abstracted (lock outcomes and run effects are oracle inputs of the theorems); scores are inputs (C01-C05, C15)."
+NU_NOTE = "Trusted: Lean kernel, axioms propext/Classical.choice/Quot.sound, harness (gates on the cfg-gated yield points) + driver. The branch structure and conditions of tick, tick_inner and Worker::run are translated from the source on every run (Gen/TickPlan.lean, Gen/RunPlan.lean) and proved to be the model's (companion files <ID>_TickTranslated, <ID>_RunTranslated). Modelled, not verified: the bodies of the steps (restart, reset_matches, process_new_items, the rescoring closure, Snapshot::update - tied by replaying seeded histories on a real Nucleo, every observable compared); a background run is one model transition parameterised by its observations; parking_lot's lock, Arc counts and rayon are abstracted (lock outcomes and run effects are oracle inputs of the theorems); scores are inputs (C01-C05, C15)."
 CLAIMS.update({
     "C06": dict(
         technique="Lean 4 theorems (run contract of rescoring and empty-pattern runs, snapshot guard, in-flight removal, strict total order of the comparison) over the protocol model + replay of seeded histories with paused writers and per-snapshot oracle",
